@@ -486,31 +486,31 @@ def r7_failure_changes_nothing_else(ctx):
 
 def r8_join_errors_reported(ctx):
     """a panicked (or unfinished) joined task is always listed: when the errors collected while joining the module's tasks are not empty,
-    ModuleRef::at_sim_end returns exactly Err(those errors) — not a combination in which the module's own result can take precedence"""
+    ModuleRef::at_sim_end reports exactly Err(those errors): the Err value is built under the `!is_empty` test and stored / returned as
+    it is, never fed into a combinator (`result.and(Err(..))`, `or`, ..) in which the module's own result can take precedence"""
     ctx.set_rule('C13.R8')
     f = ctx.anchor(EV + 'at_sim_end')
     if not f:
         return
+    def join_err(t):
+        return any(x[0] == 'agg' and str(x[1]).endswith('Result::Err') and any(y[0] == 'call' and str(y[1]).endswith('RuntimeError::empty') for y in walk(x)) for x in walk(t))
     n = 0
-    seen = set()
-    for path, outcome, decs in fn_paths(ctx, f):
-        if outcome != 'return':
-            continue
-        ne = [a for _, a in path_atoms(f, path, decs) if a[0] == 'bool' and a[2] is False and a[1][0] == 'call' and str(a[1][1]).endswith('is_empty')
-              and any(x[0] == 'call' and str(x[1]).endswith('RuntimeError::empty') for x in walk(a[1]))]
-        if not ne:
-            continue
-        r = path_ret_resolved(f, path)
-        r = peel(r) if r is not None else ('unknown',)
-        k = show(r)[:200]
-        if k in seen:
-            continue
-        seen.add(k)
-        n += 1
-        ok = r[0] == 'agg' and str(r[1]).endswith('Result::Err') and any(x[0] == 'call' and str(x[1]).endswith('RuntimeError::empty') for x in walk(r))
-        ctx.check(ok, 'join-errors-returned', "non-empty join errors are what at_sim_end returns (they are never dropped in favour of the module's own result)",
-                  f.where_path(path), k)
-    ctx.floor('return forms of at_sim_end with join errors', n, 1)
+    for b in sorted(f.reachable()):
+        for i, st in enumerate(f.stmts(b)):
+            if st['k'] == 'assign' and st['r']['k'] == 'agg' and str(st['r'].get('adt', '')).endswith('result::Result') and st['r'].get('variant') == 'Err':
+                v = f.expr_rvalue(st['r'], b, i)
+                if not join_err(v):
+                    continue
+                n += 1
+                guards = [a for _, a in f.guard_atoms(b)]
+                ne = any(a[0] == 'bool' and a[2] is False and a[1][0] == 'call' and str(a[1][1]).endswith('is_empty') for a in guards)
+                ctx.check(ne, 'join-errors-returned', 'Err(join errors) is built exactly when the collected join errors are not empty', f.where(b), [show_atom(a) for a in guards][-3:])
+    ctx.floor('Err(join errors) built in at_sim_end', n, 1)
+    for s_ in f.calls():
+        if str(s_.name).startswith('std::result::Result::') and s_.name.split('::')[-1] in ('and', 'or', 'and_then', 'or_else', 'unwrap_or', 'unwrap_or_else', 'unwrap_or_default'):
+            if any(join_err(f.expr_operand(a, s_.b, 'T')) for a in s_.args):
+                ctx.violation('join-errors-returned', "non-empty join errors are what at_sim_end returns (they are never combined with the module's own result so that they can be dropped)",
+                              s_.where(), s_.name)
 
 
 # explicit panics (assert!/panic!/unreachable!) raised while a poisoning lock guard is held, audited on the pinned tree
